@@ -65,6 +65,10 @@ pub struct SinkSc {
     pub prior_argv: Vec<B>,
     #[serde(default)]
     pub queries: Vec<BashQuery>,
+    /// the file-writing entry point (`generate_to`): 0 not exercised, 1 empty directory, 2 the directory does
+    /// not exist, 3 the "directory" is a regular file, 4 the target file exists with longer content
+    #[serde(default)]
+    pub fs: u8,
 }
 
 #[derive(Clone, Copy, PartialEq)]
@@ -125,6 +129,152 @@ fn generate_with(g: Gen, cmd: &mut Command, bin: &str, man_path: &[String], plan
         Err(p) => GenOut::Panic(p, w.delivered),
     };
     (out, fired, calls, hard)
+}
+
+// ------------------------------------------------------------------------------------------
+// generate_to: the generators writing files into a directory of the real file system
+
+fn gen_scratch_dir() -> Option<std::path::PathBuf> {
+    let base = std::env::current_exe().ok()?.parent()?.join(format!("scratch-gen-{}", std::process::id()));
+    let _ = std::fs::remove_dir_all(&base);
+    let _ = std::fs::remove_file(&base);
+    Some(base)
+}
+
+/// Display name of every level that gets a man page from `clap_mangen::generate_to` (hidden subtrees do not).
+fn man_page_levels<'a>(c: &'a CmdSpec, parent_display: Option<&str>, multicall_root: bool, out: &mut Vec<(String, &'a CmdSpec)>) {
+    let display = match (&c.display_name, parent_display) {
+        (Some(d), _) => d.clone(),
+        (None, None) => c.name.clone(),
+        (None, Some(p)) => {
+            if p.is_empty() {
+                c.name.clone()
+            } else {
+                format!("{p}-{}", c.name)
+            }
+        }
+    };
+    out.push((display.clone(), c));
+    let for_children = if parent_display.is_none() && multicall_root { c.display_name.clone().unwrap_or_default() } else { display };
+    for s in c.subs.iter().filter(|s| !s.has(CmdSetting::Hide)) {
+        man_page_levels(s, Some(&for_children), false, out);
+    }
+}
+
+fn fs_entry_point(sc: &SinkSc, g: Gen, bin: &str, reference: &[u8], log: &mut Log, out: &mut Outcome) -> Option<(&'static str, String, String)> {
+    let dir = gen_scratch_dir()?;
+    let fault = match sc.fs {
+        2 => "missing_directory",
+        3 => "directory_is_a_file",
+        4 => "target_exists",
+        _ => "none",
+    };
+    match sc.fs {
+        2 => {}
+        3 => {
+            let _ = std::fs::write(&dir, b"not a directory");
+        }
+        _ => {
+            let _ = std::fs::create_dir_all(&dir);
+        }
+    }
+    out.count_dyn(format!("fault.fs_{fault}"));
+    out.count_dyn(format!("op.generate_to_{}", g.name()));
+    out.comparisons += 1;
+    out.nontrivial = true;
+    let expect_ok = matches!(sc.fs, 1 | 4);
+    let cleanup = |d: &std::path::Path| {
+        let _ = std::fs::remove_dir_all(d);
+        let _ = std::fs::remove_file(d);
+    };
+    let verdict = if g == Gen::Man {
+        // names of the pages, and the levels they belong to
+        let mut levels = Vec::new();
+        man_page_levels(&sc.spec, None, sc.spec.has(CmdSetting::Multicall), &mut levels);
+        let mut names: Vec<String> = levels.iter().map(|(n, _)| format!("{n}.1")).collect();
+        names.sort();
+        let distinct = names.windows(2).all(|w| w[0] != w[1]) && names.iter().all(|n| !n.contains('/') && n != ".1");
+        if sc.fs == 4 {
+            for n in &names {
+                let _ = std::fs::write(dir.join(n), vec![b'x'; 70_000]);
+            }
+        }
+        let r = catch(|| clap_mangen::generate_to(build_cmd(&sc.spec), &dir));
+        ev!(log, "man generate_to ({fault}) -> {}", match &r { Ok(Ok(())) => "Ok".to_string(), Ok(Err(e)) => format!("Err({:?})", e.kind()), Err(p) => format!("panic {}", short_file(p)) });
+        match r {
+            Err(p) => Some(("generate-panic", format!("man/generate_to/{fault}"), format!("clap_mangen::generate_to panicked: {} at {}", p.msg, p.loc))),
+            Ok(Err(e)) if expect_ok => Some(("generator-error-on-perfect-sink", "man/generate_to".to_string(), format!("clap_mangen::generate_to into an empty directory failed: {e}"))),
+            Ok(Ok(())) if !expect_ok => Some(("fs-error-swallowed", format!("man/generate_to/{fault}"), "clap_mangen::generate_to returned Ok although the output directory cannot be written".to_string())),
+            Ok(Err(_)) => None,
+            Ok(Ok(())) => {
+                let mut found: Vec<String> = std::fs::read_dir(&dir).map(|rd| rd.filter_map(|e| e.ok()).map(|e| e.file_name().to_string_lossy().to_string()).collect()).unwrap_or_default();
+                found.sort();
+                let mut v = None;
+                if distinct && found != names {
+                    v = Some(("visible-missing", "man/generate_to/pages".to_string(), format!("clap_mangen::generate_to wrote the pages {found:?}; the visible levels of the tree are {names:?}")));
+                }
+                if v.is_none() && distinct {
+                    for (n, level) in &levels {
+                        let text = String::from_utf8_lossy(&std::fs::read(dir.join(format!("{n}.1"))).unwrap_or_default()).to_string();
+                        // the page of a level names everything visible at that level (help subcommand disabled by
+                        // generate_to itself) and stays inside the generator's request vocabulary
+                        if let Some((clause, site, d)) = man_checks(level, &[], &text) {
+                            // inherited globals are listed on sub-level pages too; they are not required here
+                            v = Some((clause, format!("generate_to/{site}"), format!("page `{n}.1` written by clap_mangen::generate_to: {d}")));
+                            break;
+                        }
+                        if let Err(d) = control_lines(&text) {
+                            v = Some(("control-line-from-user-text", "generate_to/unknown-request".to_string(), format!("page `{n}.1`: {d}")));
+                            break;
+                        }
+                    }
+                }
+                v
+            }
+        }
+    } else {
+        let file = match g {
+            Gen::Bash => format!("{bin}.bash"),
+            Gen::Zsh => format!("_{bin}"),
+            Gen::Fish => format!("{bin}.fish"),
+            Gen::PowerShell => format!("_{bin}.ps1"),
+            Gen::Elvish => format!("{bin}.elv"),
+            _ => format!("{bin}.nu"),
+        };
+        if sc.fs == 4 {
+            let _ = std::fs::write(dir.join(&file), vec![b'x'; reference.len() + 70_000]);
+        }
+        let mut cmd = build_cmd(&sc.spec);
+        let r = catch(|| match g {
+            Gen::Bash => clap_complete::aot::generate_to(Shell::Bash, &mut cmd, bin, &dir),
+            Gen::Zsh => clap_complete::aot::generate_to(Shell::Zsh, &mut cmd, bin, &dir),
+            Gen::Fish => clap_complete::aot::generate_to(Shell::Fish, &mut cmd, bin, &dir),
+            Gen::PowerShell => clap_complete::aot::generate_to(Shell::PowerShell, &mut cmd, bin, &dir),
+            Gen::Elvish => clap_complete::aot::generate_to(Shell::Elvish, &mut cmd, bin, &dir),
+            _ => clap_complete::aot::generate_to(clap_complete_nushell::Nushell, &mut cmd, bin, &dir),
+        });
+        ev!(log, "{} generate_to ({fault}) -> {}", g.name(), match &r { Ok(Ok(p)) => format!("Ok({:?})", p.file_name()), Ok(Err(e)) => format!("Err({:?})", e.kind()), Err(p) => format!("panic {}", short_file(p)) });
+        match r {
+            Err(p) => Some(("generate-panic", format!("{}/generate_to/{fault}", g.name()), format!("generate_to panicked: {} at {}", p.msg, p.loc))),
+            Ok(Err(e)) if expect_ok => Some(("generator-error-on-perfect-sink", format!("{}/generate_to", g.name()), format!("generate_to into a writable directory failed: {e}"))),
+            Ok(Ok(_)) if !expect_ok => Some(("fs-error-swallowed", format!("{}/generate_to/{fault}", g.name()), "generate_to returned Ok although the output directory cannot be written".to_string())),
+            Ok(Err(_)) => None,
+            Ok(Ok(path)) => {
+                let want = dir.join(&file);
+                if path != want {
+                    Some(("nondeterministic-output", format!("{}/generate_to/path", g.name()), format!("generate_to returned {:?}, the documented file name is {:?}", path.file_name(), file)))
+                } else {
+                    match std::fs::read(&path) {
+                        Ok(b) if b == reference => None,
+                        Ok(b) => Some(("nondeterministic-output", format!("{}/generate_to", g.name()), format!("the file written by generate_to ({} bytes) differs from what generate() writes for the same command ({} bytes)", b.len(), reference.len()))),
+                        Err(e) => Some(("nondeterministic-output", format!("{}/generate_to", g.name()), format!("generate_to returned Ok but the file cannot be read: {e}"))),
+                    }
+                }
+            }
+        }
+    };
+    cleanup(&dir);
+    verdict
 }
 
 // ------------------------------------------------------------------------------------------
@@ -864,6 +1014,7 @@ impl Engine for SinkSim {
             gen,
             plan,
             queries,
+            fs: if rng.chance(1, 4) { rng.urange(1, 4) as u8 } else { 0 },
         }
     }
 
@@ -900,6 +1051,11 @@ impl Engine for SinkSim {
         if !sc.man_path.is_empty() {
             let mut s = sc.clone();
             s.man_path.pop();
+            c.push(s);
+        }
+        if sc.fs != 0 {
+            let mut s = sc.clone();
+            s.fs = 0;
             c.push(s);
         }
         for i in 0..sc.queries.len() {
@@ -1040,6 +1196,15 @@ fn exec_sink(which: Which, sc: &SinkSc, log: &mut Log, out: &mut Outcome) {
                 }
             }
         }
+    }
+
+    // ---- the file-writing entry points
+    if sc.fs != 0 {
+        if let Some(v) = fs_entry_point(sc, g, &bin, &reference, log, out) {
+            out.violate(v.0, v.1, v.2);
+            return;
+        }
+        shape.add(100 + sc.fs as u64);
     }
 
     // ---- sink transparency under the scenario's fault plan, plus enumeration
